@@ -124,10 +124,6 @@ theorem length_matches (headers : List (Bytes × Bytes)) (len : Nat) (pkg : Csp.
     · rw [filter_hinsert_other _ _ _ _ cl_ne_conn]; exact base
     · exact base
 
-/-- what the strict client reads back: the same status, reason and headers; the body unless HEAD -/
-def received (r : Resp) (isHead : Bool) (pkg : Csp.Headers → Csp.Headers) : Resp :=
-  ⟨r.status, r.reason, finalHeaders r.headers r.body.length pkg, if isHead then [] else r.body⟩
-
 structure WF (r : Resp) (pkg : Csp.Headers → Csp.Headers) : Prop where
   reason : (13 : UInt8) ∉ r.reason
   headers : ∀ h ∈ finalHeaders r.headers r.body.length pkg, HeaderOk h
